@@ -336,6 +336,52 @@ func runC11(c *core.Ctx) *core.Outcome {
 			}
 		}
 	}
+	// a listing that is dropped after its first entry, then a one-entry listing of another data type of the
+	// same session on the same handle: what the second one yields is its own entry and nothing else
+	if (m.kind == world.BackFs || m.kind == world.BackFsBin || m.kind == world.BackPg) && len(vios) == 0 && t.Chance(1, 4) {
+		h := m.handles[0]
+		sid := "lsA"
+		var werr error
+		h.SetSession(sid)
+		h.SetPrefix(tUser)
+		for _, k := range []string{"la1", "la2", "la3", "la4"} {
+			if e := h.Put(ctx, []byte(k), triple{tUser, sid, k}.tag(1)); e != nil {
+				werr = e
+			}
+		}
+		h.SetPrefix(tState)
+		if e := h.Put(ctx, []byte("lz1"), triple{tState, sid, "lz1"}.tag(1)); e != nil {
+			werr = e
+		}
+		if werr == nil {
+			o.Probes["scripted_abandoned_listing"]++
+			pm, pat := world.Guard(func() {
+				h.SetPrefix(tUser)
+				if d, err := h.Dump(ctx, []byte{}); err == nil {
+					d.Next(ctx) // one entry, then the caller loses interest (no Close)
+				}
+				h.SetPrefix(tState)
+				d, err := h.Dump(ctx, []byte{})
+				if err != nil {
+					return
+				}
+				for k := 0; k < 50; k++ {
+					kk, vv := d.Next(ctx)
+					if kk == nil {
+						break
+					}
+					if ty, s2, key, ok := tagTriple(vv); ok && (ty != tState || s2 != sid) {
+						addV("cross-type-listing", nops, map[string]string{"backend": m.name},
+							"on %s the listing of type %s for session %q, made after a listing of type %s had been dropped midway, contains key %q with the value written for %s", m.name, typeNames[tState], sid, typeNames[tUser], kk, triple{ty, s2, key})
+					}
+				}
+				d.Close()
+			})
+			if pm != "" {
+				addV("panic:"+pat, nops, map[string]string{"site": pat}, "listing after a dropped listing on %s panicked: %s", m.name, pm)
+			}
+		}
+	}
 	na := 0
 	for range accepted {
 		na++
